@@ -17,7 +17,7 @@ static std::string oracle(const Case& c) {
 
 static void run() {
     Args& a = W().args; { Case c; c.set("phase", "setup"); set_current(c); deps::inject(0); model::require_self_check(); }
-    bool inject_ok = a.variant != "asan";   // with assertions on, polyseed_inject self-tests 20480 words (8 ms): keep re-injection to the NDEBUG variants
+    bool inject_ok = true; bool debug_inject = a.variant == "asan";   // with assertions on, polyseed_inject self-tests 20480 words (8 ms): re-inject rarely there, often in the NDEBUG variants
     // exhaustive: all sequences of length <= 5 over 9 fixed-argument operations
     if (a.part.empty() || a.part == "exhaustive") {
         const ops::Op A[9] = {{ops::CREATE, 0, 0, 3}, {ops::CREATE, 1, 1, 9}, {ops::ENABLE, 1, 0, 0}, {ops::CRYPT, 0, 1, 0}, {ops::LOAD, 0, 1, 0}, {ops::DECODE, 4, 3, 0}, {ops::ENCODE, 0, 4, 17}, {ops::FREE, 0, 0, 0}, {ops::ARM_FAIL, 1, 0, 0}};
@@ -31,9 +31,8 @@ static void run() {
             } }
         W().ev.enumerated["all sequences of length <= 5 over 9 fixed-argument operations (66429)"] += done;
     }
-    if (a.part == "exhaustive") return;
-    seqgen::Weights wt{{inject_ok ? 2 : 0, 4, 10, 8, 8, 8, 8, 8, 4, 4, 4, 5, 1, 3}};
-    rc_run("c13-sequences", a.n(25000, 150000), 100, [&]() {
+    seqgen::Weights wt{{debug_inject ? 1 : 4, 4, 10, 8, 8, 8, 8, 8, 4, 4, 4, 5, 1, 3}};
+    rc_run("c13-sequences", debug_inject ? a.n(1500, 20000) : a.n(25000, 150000), 100, [&]() {
         int maxlen = *rc::gen::element(8, 20, 60, a.thorough() ? 200 : 60);
         auto seq = *seqgen::sequence(wt, maxlen);
         Case c; c.set("ops", ops::to_hex(seq)); c.set("inject", inject_ok ? 1 : 0); c.set("gen", "random-walk"); set_current(c);
